@@ -95,7 +95,7 @@ def check(run, replay):
                       {"stream": "logger", "case_line": vlib.enc_case(c), "model": vlib.show(m), "impl": vlib.show(i)})
     # ---- 3: the three getters on one suppression with arbitrary flags
     n = 3000 if quick else 60000
-    cs = [[rng.choice(G.FILES[:3])] + X.gen_report_supp(rng) for _ in range(n)]
+    cs = [[rng.choice(G.PATHS)] + X.gen_report_supp(rng) for _ in range(n)]
     diffs = vlib.correspond(run, "getUnmatched{Local,Global,Inline}Suppressions", model, [vh, "unmatched"], cs, tag="unmatched",
                             nontrivial=lambda c, m, i: tuple(map(str, c)) if not rejected(i) else None,
                             bucket=lambda c, m, i: "rejected" if rejected(i) else b"".join(m).decode())
@@ -162,6 +162,7 @@ def execdep(run, model, quick):
             tried += 1
             d = tempfile.mkdtemp(dir=base)
             for n, t in files.items():
+                os.makedirs(os.path.dirname(os.path.join(d, n)), exist_ok=True)
                 open(os.path.join(d, n), "w").write(t)
             res = {}
             for k in (0, 1, 2):
